@@ -409,6 +409,21 @@ def rules(ctx):
     sm = [c for c in calls_in(cf.node, 'set_mapping')]
     ctx.inst('R19.5', cf, sm[0] if sm else 'set_mapping', bool(sm), "mapping restored through set_mapping" if sm else
              "the mapping is never restored")
+    # ... whenever the info has one: the restoring call is guarded by the presence of the entry only (the mapping of a model
+    # may know more labels than its terms; any condition on the rebuilt model's variables drops such mappings)
+    from ..astutil import expand_names as _xn
+    for c in sm:
+        extra = []
+        for t, pol, o in g.edge_dominators(enclosing_stmt(c)):
+            for a_ in compare_atoms(_xn(cf.node, t), pol):
+                txt = ' '.join(str(x) for x in a_)
+                if 'mapping' in txt and not any(w in txt for w in ('len(', 'num_binary_variables', 'variables', '_variables', 'degree')):
+                    continue
+                extra.append(a_)
+        ctx.inst('R19.5', cf, c, not extra,
+                 "the mapping is restored whenever the info carries one" if not extra else
+                 "the mapping is restored only under %s: a mapping that does not meet it (e.g. one that knows a label no term uses "
+                 "any more) is dropped, and the copy's mapping / get_info differ from the original's" % (extra[:2],))
 
 
 def thorough_rules(ctx):
